@@ -368,6 +368,7 @@ package client
 //@   ensures [duplicate-mid-not-sent] callRes(LoadOrStore, 0, 1) ==> err != nil && notCalled(WriteMessage) && notCalled(LoadAndDelete)
 //@   ensures [send-failure-removed] called(WriteMessage) && callRes(WriteMessage, 0, 0) != nil ==> err != nil && callCount(LoadAndDelete) == 1 && callArg(LoadAndDelete, 0, 1) == callRes(GetMessageID, 0, 0)
 //@   ensures [success-hands-over-cleanup] err == nil ==> cancel != nil && notCalled(LoadAndDelete) && callCount(WriteMessage) == 1
+//@   ensures [ping-message-released-at-most-once] callCount(ReleaseMessage) <= 1 && (err == nil ==> notCalled(ReleaseMessage))
 
 // ---- C12: a pooled message has one owner at a time ---------------------------------------------------
 //
